@@ -37,6 +37,7 @@ def install_all(reg):
     from . import control
     control.install(reg)
     control.install_succession(reg)
+    control.install_control(reg)
     algorithms.install(reg)
     algorithms.install_skipnode(reg)
     algorithms.install_target(reg)
